@@ -139,6 +139,37 @@ class SelectorLevel(Task):
         ctx.oblige("post.stream-gets-the-field-selection", ok and veq(ctx, c[0][2], inp["self"].attrs["farg"]), "P")
 
 
+def _mint(model, n, d=None):
+    try:
+        return int(str(model.get(n, d)))
+    except (TypeError, ValueError):
+        return d
+
+
+def _selector_replay(self, model):
+    """the solver's field selection on a real one-box plotfile with nf fields (run-time contract of the reader)"""
+    nf, form = self.nf, self.form
+    clamp = lambda v: max(-nf - 2, min(nf + 2, v if v is not None else 0))
+    if form == "int":
+        fsel = ["int", clamp(_mint(model, "k", 0))]
+    elif form == "slice":
+        fsel = ["slice", _mint(model, "sa"), _mint(model, "sb"), _mint(model, "ss", 1)]
+    elif form == "slice-nostep":
+        fsel = ["slice", _mint(model, "sa"), _mint(model, "sb"), None]
+    elif form.startswith("list"):
+        fsel = ["list"] + [clamp(_mint(model, f"f{t}", t)) for t in range(int(form[4:]))]
+    elif form == "name":
+        fsel = ["name", f"f{nf - 1}"]
+    elif form == "unknown-name":
+        fsel = ["name", "no_such_field"]
+    else:
+        return None
+    return {"kind": "single_iter" if self.prop == "C15" else "single", "ndims": 3, "nf": nf, "box": [4, 3, 2], "fsel": fsel, "seed": 7}
+
+
+SelectorInit.replay_params = _selector_replay
+
+
 class StreamInit(Task):
     """LevelDataStream.__init__: the reader kernel matches the kind of field selection."""
     prop = "C01"
@@ -270,6 +301,27 @@ class StreamGet(Task):
             if got is not None:
                 ctx.oblige("post.requested-order", z3.Implies(z3.And(t >= 0, t < to_z3(cnt)),
                                                              to_z3(veq_read(ctx, got, rd(st + t * stp)))), "P")
+
+
+def _stream_replay(self, model):
+    """the solver's box selection on a real plotfile with n boxes in a row (n capped), through __getitem__ or iter"""
+    n = max(1, min(9, _mint(model, "n", 3) or 3))
+    cl = lambda v: max(-n - 2, min(n + 2, v if v is not None else 0))
+    form = self.form
+    if form == "int":
+        bsel = ["int", cl(_mint(model, "b", 0))]
+    elif form == "slice":
+        bsel = ["slice", _mint(model, "sa"), _mint(model, "sb"), None]
+    elif form == "slice-step":
+        bsel = ["slice", None, None, max(1, min(n + 1, _mint(model, "ss", 1) or 1))]
+    elif form.startswith("list"):
+        bsel = ["list"] + [cl(_mint(model, f"b{t}", t)) for t in range(int(form[4:]))]
+    else:
+        return None
+    return {"kind": "stream_sel", "n": n, "bsel": bsel, "via": "iter" if self.qual.endswith(".iter") else "getitem", "seed": 11}
+
+
+StreamGet.replay_params = _stream_replay
 
 
 class StreamIterSel(StreamGet):
